@@ -196,3 +196,10 @@ package sequence
 //@   ensures result_1 == nil ==> result_0 != nil
 //@   ensures result_1 == nil && mc.Reverse ==> calls(reverseMatcher) == 1 && result_0 == ret(reverseMatcher, 0)
 //@   ensures !mc.Reverse ==> calls(reverseMatcher) == 0
+
+// ToExecutable: a plain executable is returned as is, a wrapping one inside a fresh adapter,
+// anything else is nil; nothing reachable is modified.
+//@ func ToExecutable [C06]
+//@   log ToExecutable
+//@   ensures v == nil ==> result == nil
+//@   ensures result != nil ==> v != nil
